@@ -112,26 +112,23 @@ def parse_ctx(t):
     return c
 
 
-def parse_log(text):
-    """-> params, list of runs; a run = dict(head, hosts, items=[...], abort, fatal)"""
-    params, runs, cur = None, [], None
-    for line in text.splitlines():
+def parse_run(lines):
+    """lines of one run (RUN .. END) -> dict(id, backend, regions, items=[...], abort, fatal, raw)"""
+    cur = None
+    for line in lines:
         f = line.split()
         if not f:
             continue
         k = f[0]
-        if k == "PARAMS":
-            params = (int(f[1]), int(f[2]))
-        elif k == "RUN":
-            cur = {"id": int(f[1]), "backend": f[2], "items": [], "abort": None, "fatal": None, "regions": []}
-            runs.append(cur)
+        if k == "RUN":
+            cur = {"id": int(f[1]), "backend": f[2], "items": [], "abort": None, "fatal": None, "regions": [], "raw": lines}
         elif cur is None:
             continue
         elif k == "HOSTS":
             cur["regions"] = [int(x) for x in f[2:]]
         elif k == "E":
             t = Toks(f, 2)
-            ev = {"k": f[1], "line": line}
+            ev = {"k": f[1]}
             kind = f[1]
             if kind == "KV":
                 ev["key"] = t.u()
@@ -165,26 +162,26 @@ def parse_log(text):
             cur["items"].append(("E", ev))
         elif k == "H":
             t = Toks(f, 1)
-            s, v = t.u(), t.u()
+            sh, v = t.u(), t.u()
             m = dict((t.u(), t.u()) for _ in range(t.u()))
-            cur["items"].append(("H", {"shard": s, "ver": v, "members": m}))
+            cur["items"].append(("H", {"shard": sh, "ver": v, "members": m}))
         elif k == "G":
             t = Toks(f, 2)
             if f[1] == "hist":
-                s, v = t.u(), t.u()
+                sh, v = t.u(), t.u()
                 m = dict((t.u(), t.u()) for _ in range(t.u()))
-                cur["items"].append(("Ghist", {"shard": s, "ver": v, "members": m}))
+                cur["items"].append(("Ghist", {"shard": sh, "ver": v, "members": m}))
             elif f[1] == "host":
                 a, up = t.u(), t.u()
                 reps = {}
                 for _ in range(t.u()):
-                    s, r, run, ver = t.u(), t.u(), t.u(), t.u()
-                    reps[(s, r)] = (run, ver)
+                    sh, r, run, ver = t.u(), t.u(), t.u(), t.u()
+                    reps[(sh, r)] = (run, ver)
                 cur["items"].append(("Ghost", {"addr": a, "up": up, "reps": reps, "queue": t.u(), "out": t.u()}))
             elif f[1] == "avail":
                 av = {}
                 while t.i < len(f):
-                    s = t.u(); av[s] = t.u()
+                    sh = t.u(); av[sh] = t.u()
                 cur["items"].append(("Gavail", av))
         elif k in ("LAUNCHED", "HEAL"):
             cur["items"].append((k, None))
@@ -194,9 +191,26 @@ def parse_log(text):
             cur["fatal"] = " ".join(f[1:])
         elif k == "ABORT":
             cur["abort"] = " ".join(f[1:])
-        elif k == "END":
-            cur = None
-    return params, runs
+    return cur
+
+
+def iter_runs(path, only_ids=None):
+    """stream the runs of an executor output file; yields (params, run)"""
+    params, buf, rid = None, None, None
+    with open(path) as fh:
+        for line in fh:
+            if line.startswith("PARAMS"):
+                f = line.split()
+                params = (int(f[1]), int(f[2]))
+            elif line.startswith("RUN "):
+                rid = int(line.split()[1])
+                buf = [line.rstrip("\n")] if (only_ids is None or rid in only_ids) else None
+            elif line.startswith("END"):
+                if buf is not None:
+                    yield params, parse_run(buf)
+                buf = None
+            elif buf is not None:
+                buf.append(line.rstrip("\n"))
 
 
 # ------------------------------------------------------------------ monitors (the property, on the logged run)
@@ -411,7 +425,7 @@ def coq_trace(run, spec, params, with_ctx=True):
 def coq_case_file(run, spec, params):
     evs = coq_trace(run, spec, params)
     body = ";\n  ".join("(%s)" % e for e in evs)
-    return ("From stdpp Require Import gmap.\nFrom Drummer.Model Require Import Base DB Sched SchedRun Fleet FleetRun.\n"
+    return ("From stdpp Require Import gmap.\nFrom Drummer.Model Require Import DB Sched Fleet FleetRun.\n"
             "Local Open Scope N_scope.\n"
             "Definition tr : list tev := [\n  %s\n].\n"
             "Definition res := Eval vm_compute in run_trace (mkParams %d %d 24) %d %s %d tr.\n"
@@ -419,7 +433,7 @@ def coq_case_file(run, spec, params):
 
 
 # ------------------------------------------------------------------ driver
-def run_specs(ck, binpath, specs, tag):
+def run_chunk(ck, binpath, specs, tag):
     d = os.path.dirname(binpath)
     fin, fout = os.path.join(d, "in-%s.jsonl" % tag), os.path.join(d, "out-%s.txt" % tag)
     with open(fin, "w") as f:
@@ -427,9 +441,24 @@ def run_specs(ck, binpath, specs, tag):
             f.write(json.dumps(s) + "\n")
     rc, log = ck.run_bin(binpath, "TestVerifLoop", {"VERIF_IN": fin, "VERIF_OUT": fout}, timeout=3000)
     if rc != 0 or not os.path.exists(fout):
-        ck.violation("closed-loop executor failed to run", {"kind": "executor", "rc": rc, "log_tail": log[-3000:]}, found_input=False)
-        return None, []
-    return parse_log(open(fout).read())
+        return None, rc, log
+    return fout, rc, log
+
+
+def run_specs(ck, binpath, specs, tag, nproc=6):
+    """run the executor on the specifications, nproc processes in parallel; returns the output files"""
+    from concurrent.futures import ThreadPoolExecutor
+    nproc = max(1, min(nproc, len(specs)))
+    chunks = [specs[i::nproc] for i in range(nproc)]
+    with ThreadPoolExecutor(nproc) as ex:
+        res = list(ex.map(lambda ic: run_chunk(ck, binpath, ic[1], "%s%d" % (tag, ic[0])), enumerate(chunks)))
+    files = []
+    for (fout, rc, log) in res:
+        if fout is None:
+            ck.violation("closed-loop executor failed to run", {"kind": "executor", "rc": rc, "log_tail": log[-3000:]}, found_input=False)
+            return None
+        files.append(fout)
+    return files
 
 
 def run(ck):
@@ -442,36 +471,35 @@ def run(ck):
     binpath = ck.go_test_bin("", ["root/zz_verif_loop_test.go"], name="loop")
     if binpath is None:
         return
-    n_direct = int(os.environ.get("C01_RUNS", 400 if quick else 20000))
-    n_nh = 6 if quick else 120
-    n_model = int(os.environ.get("C01_MODEL", 24 if quick else 400))
+    n_direct = int(os.environ.get("C01_RUNS", 300 if quick else 20000))
+    n_nh = int(os.environ.get("C01_NH", 6 if quick else 200))
+    n_model = int(os.environ.get("C01_MODEL", 20 if quick else 400))
     specs = [gen_spec(ck.rng, i) for i in range(n_direct)]
     specs += [gen_spec(ck.rng, n_direct + i, "nodehost") for i in range(n_nh)]
     byid = dict((s["id"], s) for s in specs)
     t0 = time.time()
-    params, runs = run_specs(ck, binpath, specs, "a")
-    if params is None:
+    files = run_specs(ck, binpath, specs, "a")
+    if files is None:
         return
     ck.cov["go_wall_s"] = round(time.time() - t0, 1)
-    # infrastructure aborts of the real NodeHost back end: rerun once
-    redo = [byid[r["id"]] for r in runs if r["abort"] and r["abort"].startswith("INFRA")]
-    if redo:
-        _, runs2 = run_specs(ck, binpath, redo, "b")
-        m2 = dict((r["id"], r) for r in runs2)
-        runs = [m2.get(r["id"], r) if (r["abort"] and r["abort"].startswith("INFRA")) else r for r in runs]
-    agg = {}
-    heal_hist = {}
-    reported = set()
-    for r in runs:
+    agg, heal_hist, reported = {}, {}, set()
+    cand = []        # (sort key, id, file) of the runs that may be replayed on the model
+    params = None
+    redo = []
+
+    def judge(r, path, final):
         spec = byid[r["id"]]
         if r["abort"]:
+            if r["abort"].startswith("INFRA") and not final:
+                redo.append(spec)      # infrastructure trouble of the real NodeHost back end: run it again
+                return
             if r["abort"].startswith("INFRA"):
                 ck.violation("closed-loop run could not be executed (infrastructure): " + r["abort"],
                              {"kind": "infra", "spec": spec}, found_input=False)
             else:
                 ck.violation("Drummer DB / leader loop failed in a closed-loop run: " + r["abort"],
-                             {"kind": "abort", "spec": spec, "trace_tail": [i[1]["line"] for i in r["items"] if i[0] == "E"][-30:]})
-            continue
+                             {"kind": "abort", "spec": spec, "trace_tail": [l[:400] for l in r["raw"] if l.startswith("E ")][-40:]})
+            return
         bad, st = monitor(r, spec)
         for k, v in st.items():
             if isinstance(v, int):
@@ -480,47 +508,73 @@ def run(ck):
             heal_hist[st["healed_at"]] = heal_hist.get(st["healed_at"], 0) + 1
         nontrivial = st["crash"] > 0 and (st["restore"] + st["add"] + st["delete"] + st["killed"]) > 0
         ck.count_case(json.dumps(spec, sort_keys=True), nontrivial)
+        cand.append(((r["backend"] != "nodehost", -(st["add"] + st["delete"] + st["killed"]), -st["restore"]), r["id"], path))
         for (pid, what) in bad:
             key = (pid, what.split(":")[0][:60])
-            if key in reported and len(ck.violations) > 8:
+            if key in reported or len(ck.violations) > 12:
                 continue
             reported.add(key)
             ck.violation("[%s] %s (run %d, %s back end, %d hosts, %d shards of %d, profile %s)" % (
                 pid, what, r["id"], r["backend"], spec["hosts"], spec["nshards"], spec["size"], spec.get("profile")),
                 {"kind": "monitor", "clause": pid, "spec": spec,
                  "how_to_replay": "write spec as one JSON line to a file F; VERIF_IN=F VERIF_OUT=out loop.test -test.run TestVerifLoop",
-                 "trace": [i[1]["line"][:400] if i[0] == "E" else "%s %s" % (i[0], i[1]) for i in r["items"]][-400:]})
+                 "trace": [l[:400] for l in r["raw"]][-500:]})
+
+    for path in files:
+        for params_, r in iter_runs(path):
+            params = params_
+            judge(r, path, False)
+    if redo:
+        files2 = run_specs(ck, binpath, redo, "b", nproc=1)
+        if files2 is None:
+            return
+        for path in files2:
+            for _, r in iter_runs(path):
+                judge(r, path, True)
     ck.cov["effects"] = agg
     ck.cov["healed_after_rounds_histogram"] = dict(sorted(heal_hist.items()))
     ck.cov["runs"] = {"direct": n_direct, "nodehost": n_nh}
     # ---- model side: re-validate logged traces step by step
     if os.environ.get("C01_SKIP_MODEL") == "1" or ck.violations:
         return
-    good = [r for r in runs if not r["abort"]]
-    # prefer eventful runs, keep the NodeHost ones
-    good.sort(key=lambda r: (r["backend"] != "nodehost", -sum(1 for i in r["items"] if i[0] == "H")))
-    pick = good[:n_model]
-    jobs = [("c01_%d" % r["id"], coq_case_file(r, byid[r["id"]], params)) for r in pick]
+    cand.sort()
+    pick = cand[:n_model]
     t1 = time.time()
-    res = ck.coq_eval_par(jobs, timeout=3000)
+    BATCH = 16
+    first_sample = None
+    for b0 in range(0, len(pick), BATCH):
+        part = pick[b0:b0 + BATCH]
+        want = {}
+        for (_, rid, path) in part:
+            want.setdefault(path, set()).add(rid)
+        runs = {}
+        for path, ids in want.items():
+            for _, r in iter_runs(path, ids):
+                runs[r["id"]] = r
+        jobs = [("c01_%d" % rid, coq_case_file(runs[rid], byid[rid], params)) for (_, rid, _) in part]
+        res = ck.coq_eval_par(jobs, timeout=3000)
+        for (_, rid, _), (rc, out) in zip(part, res):
+            r, spec = runs[rid], byid[rid]
+            m = re.search(r"res\s*=\s*(.*?)\s*:\s", out.replace("\n", " "))
+            if rc != 0 or not m:
+                ck.violation("model evaluation failed on a logged closed-loop trace (run %d)" % rid,
+                             {"kind": "coq-eval", "spec": spec, "out_tail": out[-2000:]}, found_input=False)
+                continue
+            ans = m.group(1).strip()
+            if ans.startswith("TraceOk"):
+                ck.cov["traces_validated_against_impl"] += 1
+                if first_sample is None:
+                    first_sample = {"run": rid, "spec": spec, "answer": ans, "first_events": [l[:160] for l in r["raw"] if l.startswith("E ")][:12]}
+            else:
+                evs = coq_trace(r, spec, params)
+                mm = re.search(r"TraceBad\s+(\d+)%?\w*\s+(\d+)", ans)
+                ix = int(mm.group(1)) if mm else -1
+                ck.violation("model and implementation disagree on a closed-loop step (run %d, step %d: %s; code %s)" % (
+                    rid, ix, evs[ix][:200] if 0 <= ix < len(evs) else "?", mm.group(2) if mm else ans[:80]),
+                    {"kind": "model-mismatch", "spec": spec, "answer": ans[:500], "step": evs[ix] if 0 <= ix < len(evs) else None,
+                     "steps_before": evs[max(0, ix - 12):ix]}, found_input=False)
+        del runs
     ck.cov["coq_wall_s"] = round(time.time() - t1, 1)
-    for r, (rc, out) in zip(pick, res):
-        spec = byid[r["id"]]
-        m = re.search(r"res\s*=\s*(.*?)\s*:\s", out.replace("\n", " "))
-        if rc != 0 or not m:
-            ck.violation("model evaluation failed on a logged closed-loop trace (run %d)" % r["id"],
-                         {"kind": "coq-eval", "spec": spec, "out_tail": out[-2000:]}, found_input=False)
-            continue
-        ans = m.group(1).strip()
-        if ans.startswith("TraceOk"):
-            ck.cov["traces_validated_against_impl"] += 1
-        else:
-            evs = coq_trace(r, spec, params)
-            mm = re.search(r"TraceBad\s+(\d+)%?\w*\s+(\d+)", ans)
-            ix = int(mm.group(1)) if mm else -1
-            ck.violation("model and implementation disagree on a closed-loop step (run %d, step %d: %s; code %s)" % (
-                r["id"], ix, evs[ix][:200] if 0 <= ix < len(evs) else "?", mm.group(2) if mm else ans[:80]),
-                {"kind": "model-mismatch", "spec": spec, "answer": ans[:500], "step": evs[ix] if 0 <= ix < len(evs) else None,
-                 "steps_before": evs[max(0, ix - 12):ix]}, found_input=False)
-    if pick:
-        ck.sample({"run": pick[0]["id"], "spec": byid[pick[0]["id"]], "first_events": [i[1]["line"][:160] for i in pick[0]["items"] if i[0] == "E"][:12]})
+    ck.cov["model_runs"] = len(pick)
+    if first_sample:
+        ck.sample(first_sample)
